@@ -1411,7 +1411,14 @@ def run(ctx):
         for idx, img, lam, want in checks:
             ctx.traces_validated += 1
             resp = out[base + idx].split(' ')
-            good = len(resp) == 3 and resp[0] == 'ok'
+            good = len(resp) == 4 and resp[0] == 'ok'
+            if good and resp[3] != '-':
+                # the closed form of the accumulated charge (spec side of `noisy_charge_is_sum_plus_dark`) against what the real
+                # code handed to its Poisson stage
+                ctx.count('rng:closed-form-charge-compared' + ('' if lam is not None else ':photon-off(skipped)'))
+                if lam is not None:
+                    sp = parse_rat_list(resp[3])
+                    good = len(sp) == len(lam) and all(abs(float(a) - b) <= TOL * max(1.0, abs(float(a))) for a, b in zip(sp, lam))
             if good:
                 m = parse_rat_list(resp[1])
                 good = m == want and len(m) == len(img) and all(abs(float(a) - b) <= TOL * max(1.0, abs(float(a))) for a, b in zip(m, img))
